@@ -84,6 +84,11 @@ def check(rep):
         files.append(("fragmented_%dtracks_orphan%s" % (len(trs_f), "" if orphan is None else "_%x" % orphan), init + media))
         if orphan is not None:
             files.append(("fragmented_%dtracks_only_orphan_%x" % (len(trs_f), orphan), init + isogen.build_fragmented(trs_f, fr[1:], trex_dur=0)[1](len(init))[0]))
+    # two tracks whose chunks start at the SAME file offset (a chunk of empty samples occupies no bytes: the next chunk of the other track starts where it does)
+    trs_e = [{"id": 1, "kind": "ttxt", "ts": 1000, "sizes": [0, 0, 0, 0, 0], "chunks": [2, 2, 1], "deltas": [10] * 5, "cts": None, "sync": None, "co64": False},
+             {"id": 2, "kind": "aac", "ts": 48000, "sizes": [5, 6, 7, 8, 9, 4], "chunks": [2, 2, 2], "deltas": [1024] * 6, "cts": None, "sync": None, "co64": False}]
+    files.append(("empty_chunks", bytes(_iso.build_movie(trs_e, "moov_first")[0].data)))
+    files.append(("empty_chunks_mdat_first", bytes(_iso.build_movie([dict(t) for t in trs_e], "mdat_first")[0].data)))
     # generated fragmented movies: several fragments, runs of different lengths and sample sizes, several track fragments of one track in a movie fragment
     # (a position remembered inside one run must not be used in another)
     for name, finit, m1, m0, _fields in readcheck.valid_fragmented(rng, 3 if quick else 12):
@@ -231,9 +236,22 @@ def check(rep):
     hs = [muxgen.random_history(rng, bad=0.05, max_samples=40) for _ in range(40 if quick else 400)] + muxgen.exhaustive_small(limit=60)
     stats["mux_histories"] = len(hs)
     ml = [json.dumps(muxgen.to_harness(h, readback=False)) for h in hs]
-    o1 = common.harness_run("run", "debug", ml, shards=2)
+    # every third history is also run ABANDONED (the writer dropped without write_end, samples still buffered) next to it: in the first run before
+    # it, in the reversed run after it — whatever an abandoned writer leaves behind in the process must not reach the next one
+    def with_abandoned(lines):
+        out, keep = [], []
+        for i, (h, l) in enumerate(zip(hs, lines)):
+            if i % 3 == 0:
+                out.append(json.dumps(muxgen.to_harness(h, readback=False, abandon=True, want_bytes=False)))
+            keep.append(len(out))
+            out.append(l)
+        return out, keep
+    ml1, keep1 = with_abandoned(ml)
+    r1 = common.harness_run("run", "debug", ml1, shards=2)
+    o1 = [r1[k] for k in keep1]
     o2 = common.harness_run("run", "debug", ml[::-1], shards=5)[::-1]
-    o3 = common.harness_run("run", "release", ml, shards=3)
+    r3 = common.harness_run("run", "release", ml1, shards=3)
+    o3 = [r3[k] for k in keep1]
     for h, x, y, z in zip(hs, o1, o2, o3):
         jx, jy, jz = json.loads(x), json.loads(y), json.loads(z)
         if not (jx.get("out") == jy.get("out") == jz.get("out")) or jx.get("statuses") != jy.get("statuses"):
